@@ -19,7 +19,7 @@ PLATFORM_WRAPS = ["lock_init", "lock_acquire", "try_lock_acquire", "lock_release
                   "event_wait", "event_notify_all", "thread_init", "thread_create", "thread_join", "clock_init", "clock_tic",
                   "clock_toc", "clock_toc_ms", "clock_cmp_now", "clock_sleep_ms"]
 
-RULES = {"WriterAsleepThoughGrantable", "BlockedWhileDrained", "BlockedWhileRefusing", "WriteRefusedWhileAccepting", "WriteGrantedWhileRefusing",
+RULES = {"WriterAsleepThoughGrantable", "DrainNotBounded", "BlockedWhileDrained", "BlockedWhileRefusing", "WriteRefusedWhileAccepting", "WriteGrantedWhileRefusing",
          "HangWriterAsleepWhileRefusing", "HangWriterAsleepWhileDrained"}
 # "HangOther" (writer asleep, accepting, readers not drained, or some other deadlock) is NOT a violation by itself: a writer may
 # legitimately wait forever for readers that have stopped reading. The spurious-wake probe turns the illegitimate cases into
@@ -239,6 +239,9 @@ def judge(chk, trace, idx, cfgs, bdir, kind):
 
 def replay_script(prop, path):
     obj = json.load(open(path))["replay"]
+    if obj.get("kind") == "channel_script":
+        seq.RULES[prop] = RULES
+        return seq.replay_script(prop, path)
     bdir = build_dir("replay_" + prop)
     exe = build_conc(bdir)
     cfgp = os.path.join(bdir, "replay.cfg")
@@ -377,6 +380,34 @@ def main(prop, tier):
     widx = concat(wtraces, wall)
     v2 = judge(chk, wall, widx, wcfgs, bdir, "replayed ChannelConc behaviour")
     events += v2["consumed"]
+    # ---- sequential exploration judged with C03's rules (drain bound, blocked-while-drained on every transition) ----
+    seq_exe = seq.build_seq(os.path.join(bdir, "seq"))
+    seq_traces = []
+    for cap, nr, mw, acc in ((3, 2, 2, 1), (4, 2, 3, 0)) + (((5, 2, 4, 0), (3, 3, 2, 0)) if thorough else ()):
+        pre = os.path.join(bdir, "sx_%d_%d" % (cap, nr))
+        rc, out = run([seq_exe, "explore", str(cap), str(nr), str(mw), str(acc), "120000", pre, "400000"], timeout=1200)
+        try:
+            r = json.loads(out.strip().splitlines()[-1])
+        except Exception:
+            raise Broken("explore harness failed (rc=%s): %s" % (rc, out[-800:]))
+        seq_traces += [pre + ".%04d.ndjson" % i for i in range(r["chunks"])]
+    probes = 0
+    for t in seq_traces:
+        v3 = seq.validate_trace(t, bdir)
+        probes += sum(1 for l in open(t) if '"DrainProbe"' in l)
+        events += v3["consumed"]
+        done3 = set()
+        for rule, line in v3["bad"]:
+            if rule in RULES and rule not in done3:
+                done3.add(rule)
+                path = seq.witness_path(t, line)
+                cap_, ops = seq.events_to_script(path)
+                chk.violation("rule=%s site=%s" % (rule, path[-1]["e"]), "%s refused %s after %d ops (sequential exploration, capacity %d): ... %s" % (
+                    rule, json.dumps(path[-1]), len(ops), cap_, " ; ".join(ops[-12:])), replay_obj={"kind": "channel_script", "cap": cap_, "ops": ops, "rule": rule})
+        os.remove(t)
+    chk.set("drain_probes_judged", probes)
+    if probes < 1000:
+        raise Broken("vacuous: only %d drain probes" % probes)
     chk.set("spec_behaviours_replayed", len(walks))
     chk.set("spec_steps_compared", steps_compared)
     chk.set("traces_validated_against_impl", len(idx) + len(widx))
